@@ -32,7 +32,8 @@ class RaiseCase:
 class LoopSpec:
 
   def __init__(self, invariants, havoc=None, keep=None, decreases=None,
-               ghost_step=None, unroll=False, ghost=None, after=None):
+               ghost_step=None, unroll=False, ghost=None, after=None,
+               before=None):
     self.invariants = list(invariants)   # [Clause] ; fn(ctx, k)
     self.havoc = havoc      # extra names to havoc
     self.keep = keep        # names NOT to havoc although syntactically assigned
@@ -40,6 +41,7 @@ class LoopSpec:
     self.ghost_step = ghost_step  # callable(ex, ctx, k): ghost code after the body
     self.ghost = ghost or []      # ghost variables the ghost code updates
     self.after = after            # callable(ex, ctx): ghost code at loop exit
+    self.before = before          # callable(ex, ctx): ghost code before the loop
     self.unroll = unroll
 
 
@@ -73,6 +75,8 @@ class Contract:
     self.opaque_pure = True            # opaque callbacks do not touch gin state
     self.opaque_havoc = None           # or: set of fields they may change
     self.opaque_may_raise = True
+    self.custom = None                 # callable(ex, args, node): replaces the whole call
+    self.abstract_stmts = []           # [(predicate(stmt), reason)]: statements havoced
     self.opaque_model = None           # callable(ex, fn, args, kwargs, node) -> wrapper|None
     self.val_ops_may_raise = False     # truthiness/eq/in on opaque Val may raise
     self.checkpoints = {}              # anchor -> [Clause]
